@@ -2,8 +2,7 @@
 EXTENDS Integers
 NegOne == -1
 DEV_none == {}
-DEV_set_ConfirmClearsUnreportedBroadcast_DiscardRollbackPerCall_ErrorReplyIgnoresAddressing_OversizeObjectNeverFits == {"ConfirmClearsUnreportedBroadcast", "DiscardRollbackPerCall", "ErrorReplyIgnoresAddressing", "OversizeObjectNeverFits"}
-DEV_set_ConfirmClearsUnreportedBroadcast == {"ConfirmClearsUnreportedBroadcast"}
+DEV_set_DiscardRollbackPerCall_ErrorReplyIgnoresAddressing_OversizeObjectNeverFits == {"DiscardRollbackPerCall", "ErrorReplyIgnoresAddressing", "OversizeObjectNeverFits"}
 DEV_set_DiscardRollbackPerCall == {"DiscardRollbackPerCall"}
 DEV_set_ErrorReplyIgnoresAddressing == {"ErrorReplyIgnoresAddressing"}
 DEV_set_OversizeObjectNeverFits == {"OversizeObjectNeverFits"}
